@@ -76,3 +76,35 @@ Theorem c09_stream_publish_is_core : forall st p l,
   map fst (snd (Api.v2_stream_publish st p l)) = map fst (snd (update_entries st p (Api.stream_updates l))).
 Proof. exact Proofs.Api.v2_stream_publish_is_core. Qed.
 Print Assumptions c09_stream_publish_is_core.
+
+(* ---------- through the kuksa.val.v2 Actuate / BatchActuate handlers ---------- *)
+(* the kuksa.val.v2 BatchActuate handler pairs every element's own identifier (id or path) with its own value, in
+   request order *)
+Theorem c09_handler_batch_pairs : forall db l cs,
+  Api.v2_batch_resolve db l = inl cs ->
+  Forall2 (fun x c => Api.v2_resolve_actuator db (fst x) = inl (fst c) /\
+                      exists w, snd x = Some w /\ snd c = Api.from_wire w) l cs.
+Proof. exact Proofs.Api.v2_batch_resolve_pairs. Qed.
+Print Assumptions c09_handler_batch_pairs.
+
+(* a served BatchActuate is the core batch of exactly those pairs (so c09_batch_success applies to it) *)
+Theorem c09_handler_batch_served : forall st p l st',
+  Api.v2_batch_actuate st p l = (st', Api.RStatus Api.OK) ->
+  exists cs, Forall2 (Proofs.Api.names_pair (st_db st)) l cs /\ batch_actuate st p cs = (st', None).
+Proof. exact Proofs.Api.v2_batch_actuate_served. Qed.
+Print Assumptions c09_handler_batch_served.
+
+(* a BatchActuate answered with an error forwards nothing and changes nothing *)
+Theorem c09_handler_batch_refused_no_effect : forall st p l st' c,
+  Api.v2_batch_actuate st p l = (st', Api.RStatus c) -> c <> Api.OK -> st' = st.
+Proof. exact Proofs.Api.v2_batch_actuate_refused_no_effect. Qed.
+Print Assumptions c09_handler_batch_refused_no_effect.
+
+(* a served Actuate is the core actuate of the actuator its identifier names, value unchanged *)
+Theorem c09_handler_actuate_served : forall st p s v st',
+  Api.v2_actuate st p s v = (st', Api.RStatus Api.OK) ->
+  exists id w, Api.v2_resolve_actuator (st_db st) s = inl id /\ v = Some w /\
+               actuate st p id (Api.from_wire w) = (st', None).
+Proof. exact Proofs.Api.v2_actuate_served. Qed.
+Print Assumptions c09_handler_actuate_served.
+
